@@ -264,3 +264,83 @@ for _net in (1, 2, 3):
         params={"self": NSE(), "adapter": Fn(lambda b, name, _net=_net: b.built['self'].elementService.adapters[_net]), "npdu": WhoIs()},
         ensures=["who_is_ok(self, %d, npdu, calls('reply'), calls('ase_request'))" % _net],
         modifies=[], max_paths=20000)
+
+# -- the answer arrives: the path is learned and what was waiting for it goes out, once, complete ------------------------------------------
+
+def WaitingNSE(router):
+    """a node with packets waiting for a path to network 9 (0..2) and to network 8 (0..1)"""
+    def build(b, name):
+        e = object.__new__(NetworkServiceElement)
+        node = Node(router).build(b, name + '.node')
+        e.__dict__.update(elementID=None, elementService=node, _startup_disabled=True)
+        n9 = OneOf(0, 1, 2).build(b, name + '.waiting9')
+        e.ghost_waiting = []
+        for i in range(n9):
+            p = NPDU()
+            p.npduDADR = RemoteStation(9, 1 + i)
+            p.npduHopCount = 255
+            p.pduData = bytearray([0x10, 0x08, i])
+            node.pending_nets.setdefault(9, []).append(p)
+            e.ghost_waiting.append(p)
+        other = Bool().build(b, name + '.waiting8')
+        e.ghost_other = None
+        if (b.ctx.decide(other.t) if b.mode == 'sym' else other):
+            q = NPDU()
+            q.npduDADR = RemoteStation(8, 1)
+            node.pending_nets[8] = [q]
+            e.ghost_other = q
+        b.built[name] = e
+        return e
+    return Fn(build)
+
+def IAm(nets):
+    return Obj("bacpypes.npdu:IAmRouterToNetwork", pduSource=Const(ROUTER20), pduDestination=Const(LocalBroadcast()), npduSADR=Const(None), npduDADR=Const(None),
+               npduHopCount=Const(None), npduNetMessage=Const(1), iartnNetworkList=OneOf(*nets), pduData=Const(None), **_NPCI)
+
+def released_ok(e, net, npdu, frames, relays):
+    node = e.elementService
+    adapter = node.adapters[net]
+    announced = npdu.iartnNetworkList
+    # the announcement is what the cache says from now on
+    for d in announced:
+        ri = node.router_info_cache.get_router_info(net, d)
+        if ri is None or not ri.address == ROUTER20:
+            return False
+    # what waited for an announced network goes out exactly once, in order, to the announcing router on the network it spoke on, still naming its final destination
+    want = []
+    for d in announced:
+        if d == 9:
+            want = want + list(e.ghost_waiting)
+        elif d == 8 and e.ghost_other is not None:
+            want = want + [e.ghost_other]
+    if len(frames) != len(want):
+        return False
+    for i in range(len(want)):
+        a, p = frames[i]
+        if not (a is adapter and p.pduDestination == ROUTER20 and p.npduDADR == want[i].npduDADR and p.pduData == want[i].pduData):
+            return False
+    for d in announced:
+        if d in node.pending_nets:
+            return False
+    # what waits for a network that was not announced keeps waiting
+    if e.ghost_other is not None and 8 not in announced and not (node.pending_nets.get(8) is not None and len(node.pending_nets[8]) == 1 and node.pending_nets[8][0] is e.ghost_other):
+        return False
+    if len(e.ghost_waiting) > 0 and 9 not in announced and not (node.pending_nets.get(9) is not None and len(node.pending_nets[9]) == len(e.ghost_waiting)):
+        return False
+    # a router passes the announcement on to its other networks, once each, never back
+    if len(node.adapters) == 1:
+        return len(relays) == 0
+    return (sorted(r[0].adapterNet for r in relays) == [x for x in (1, 2, 3) if x != net]
+            and all(type(r[1]) is IAmRouterToNetwork and r[1].iartnNetworkList == announced and kind(r[1].pduDestination) == 'lb' for r in relays))
+
+for _router, _net in ((False, 1), (True, 2)):
+    contract("bacpypes.netservice:NetworkServiceElement.IAmRouterToNetwork",
+        name="bacpypes.netservice:NetworkServiceElement.IAmRouterToNetwork[%s, heard on network %d]" % ("router" if _router else "station", _net),
+        params={"self": WaitingNSE(_router), "adapter": Fn(lambda b, name, _net=_net: b.built['self'].elementService.adapters[_net]),
+                "npdu": IAm(([9], [7], [9, 7], [8, 9]))},
+        ensures=["released_ok(self, %d, npdu, calls('to_net'), calls('ase_request'))" % _net],
+        modifies=["self.elementService.pending_nets", "self.elementService.router_info_cache.*", "self.elementService.router_info_cache.routers",
+                  "self.elementService.router_info_cache.path_info"]
+                 + ["self.ghost_waiting[%d].pduDestination" % i for i in range(2)] + ["self.ghost_other.pduDestination"],
+        max_paths=20000,
+        note="0..2 packets waiting for network 9, possibly one for network 8; announcements [9], [7], [9, 7], [8, 9]")
